@@ -1296,3 +1296,84 @@ Proof.
     vm_compute. reflexivity.
   - vm_compute. reflexivity.
 Qed.
+
+(* =================================================================================================
+   G. a segment that starts off the frequency grid; fields never run together
+   ================================================================================================= *)
+(* a new job (fresh module) whose first step it0 comes from a state file / the engine: the lines are at the ABSOLUTE
+   multiples of the frequency, wherever it0 lies with respect to the grid (in particular it0 itself gets a line only
+   if it is a multiple) *)
+Lemma restarted_segment_on_absolute_grid : forall freq c it0 n, (0 < freq)%Z ->
+  let steps := data_steps (snd (traj_run (traj_init freq c) (TRestart it0 :: run_events it0 n))) in
+  NoDup steps /\
+  (forall it, In it steps <-> ((it0 <= it < it0 + Z.of_nat n)%Z /\ (it mod freq = 0)%Z)) /\
+  (In it0 steps <-> ((1 <= n)%nat /\ (it0 mod freq = 0)%Z)).
+Proof.
+  intros freq c it0 n Hf. cbn [traj_run traj_event]. cbn zeta.
+  set (s1 := mkTS (t_freq (traj_init freq c)) (t_cfg (traj_init freq c)) (t_labels (traj_init freq c)) it0).
+  destruct (traj_run s1 (run_events it0 n)) as [s2 l2] eqn:E. cbn [snd app].
+  pose proof (one_line_per_multiple s1 it0 n) as H. cbn zeta in H. rewrite E in H. cbn [snd] in H.
+  assert (Hfr : t_freq s1 = freq) by reflexivity. rewrite Hfr in H. destruct (H Hf) as [Hnd Hin].
+  assert (Hiff : forall it, In it (data_steps l2) <-> (it0 <= it < it0 + Z.of_nat n)%Z /\ (it mod freq = 0)%Z).
+  { intros it. rewrite Hin. split; intros [Hr Hm]; split; try exact Hr.
+    - destruct Hm as [k ->]. apply Z_mod_mult.
+    - exists (it / freq)%Z. rewrite (Z.div_mod it freq) at 1 by lia. lia. }
+  split; [exact Hnd|]. split; [exact Hiff|].
+  rewrite Hiff. split; intros [H1 H2]; split; try exact H2; lia.
+Qed.
+
+(* the writers put at least one blank before every field and setw() never truncates: a line is the concatenation of
+   (one blank, padding to the width, the field's text); splitting it on blanks gives back the fields whatever their
+   lengths (numbers wider than the column do not merge with their neighbours) *)
+Definition pad_left (w : nat) (tok : list nat) : list nat := repeat 32%nat (w - length tok) ++ tok.
+Definition write_fields (w : nat) (toks : list (list nat)) : list nat :=
+  flat_map (fun tok => 32%nat :: pad_left w tok) toks.
+
+(* split on blanks, dropping empty pieces; cur is the piece being read (reversed) *)
+Fixpoint split_blanks (cur : list nat) (l : list nat) : list (list nat) :=
+  match l with
+  | [] => match cur with [] => [] | _ => [rev cur] end
+  | c :: r => if (c =? 32)%nat
+              then match cur with [] => split_blanks [] r | _ => rev cur :: split_blanks [] r end
+              else split_blanks (c :: cur) r
+  end.
+
+Lemma split_blanks_spaces : forall n r, split_blanks [] (repeat 32%nat n ++ r) = split_blanks [] r.
+Proof. induction n as [|n IH]; intros r; [reflexivity|]. cbn [repeat app split_blanks Nat.eqb]. apply IH. Qed.
+
+Lemma split_blanks_token : forall tok cur r, no_blank tok ->
+  split_blanks cur (tok ++ 32%nat :: r) = rev (rev tok ++ cur) :: split_blanks [] r \/ (tok = [] /\ cur = []).
+Proof.
+  induction tok as [|c tok IH]; intros cur r Hn.
+  - cbn [app split_blanks Nat.eqb rev]. destruct cur as [|d cur]; [right; split; reflexivity|left; reflexivity].
+  - inversion Hn as [|? ? Hc Hn']; subst. cbn [app split_blanks].
+    destruct (c =? 32)%nat eqn:E; [apply Nat.eqb_eq in E; contradiction|].
+    destruct (IH (c :: cur) r Hn') as [H|[_ H]]; [|discriminate].
+    left. rewrite H. cbn [rev]. rewrite <- app_assoc. reflexivity.
+Qed.
+
+Lemma split_blanks_last_token : forall tok cur, no_blank tok -> (tok <> [] \/ cur <> []) ->
+  split_blanks cur tok = [rev (rev tok ++ cur)].
+Proof.
+  induction tok as [|c tok IH]; intros cur Hn Hne.
+  - cbn [split_blanks rev app]. destruct cur; [destruct Hne as [H|H]; congruence|reflexivity].
+  - inversion Hn as [|? ? Hc Hn']; subst. cbn [split_blanks].
+    destruct (c =? 32)%nat eqn:E; [apply Nat.eqb_eq in E; contradiction|].
+    rewrite IH by (try assumption; right; discriminate). cbn [rev]. rewrite <- app_assoc. reflexivity.
+Qed.
+
+Lemma fields_never_merge : forall w toks,
+  Forall (fun t => no_blank t /\ t <> []) toks -> split_blanks [] (write_fields w toks) = toks.
+Proof.
+  intros w toks. induction toks as [|t toks IH]; intros H; [reflexivity|].
+  inversion H as [|? ? [Hn Hne] H']; subst. specialize (IH H').
+  unfold write_fields in *. cbn [flat_map]. cbn [app split_blanks Nat.eqb]. unfold pad_left.
+  rewrite <- app_assoc, split_blanks_spaces.
+  destruct toks as [|t2 toks].
+  - cbn [flat_map]. rewrite app_nil_r. rewrite split_blanks_last_token by (try assumption; left; assumption).
+    rewrite app_nil_r, rev_involutive. reflexivity.
+  - cbn [flat_map] in *. cbn [app].
+    destruct (split_blanks_token t [] (pad_left w t2 ++ flat_map (fun tok => 32%nat :: pad_left w tok) toks) Hn) as [Hs|[Hs _]]; [|contradiction].
+    unfold pad_left in *. rewrite Hs, app_nil_r, rev_involutive. f_equal.
+    cbn [app split_blanks Nat.eqb] in IH. exact IH.
+Qed.
